@@ -23,6 +23,9 @@ pub const UNKNOWN_RULES: [&str; 3] = ["Title Case", "snakecase", "CAMELCASE"];
 pub enum Pos {
     Field,
     Variant,
+    /// field of a struct variant: the rule is the variant's own `rename_all`, written next to an enum-level
+    /// `rename_all_fields` with another rule (serde: the variant's rule wins)
+    VariantField,
 }
 
 #[derive(Clone, Debug, Serialize, Deserialize, Hash, PartialEq, Eq)]
@@ -42,7 +45,7 @@ pub fn oracle(ident: &str, rule: &str, pos: Pos) -> Option<String> {
         Err(_) => return Some(ident.to_string()), // unknown rule: names unchanged (property text)
     };
     catch_unwind(AssertUnwindSafe(|| match pos {
-        Pos::Field => r.apply_to_field(ident),
+        Pos::Field | Pos::VariantField => r.apply_to_field(ident),
         Pos::Variant => r.apply_to_variant(ident),
     }))
     .ok()
@@ -92,6 +95,13 @@ fn item_src(i: usize, c: &Case) -> String {
     match c.pos {
         Pos::Field => format!("#[typeshare]\n{}\npub struct S{} {{ pub {}: u8 }}\n", attr, i, spelled(c)),
         Pos::Variant => format!("#[typeshare]\n{}\npub enum S{} {{ {} }}\n", attr, i, spelled(c)),
+        Pos::VariantField => {
+            let decoy = match RULES.iter().position(|r| *r == c.rule) {
+                Some(k) => format!(", rename_all_fields = {:?}", RULES[(k + 3) % 8]),
+                None => String::new(),
+            };
+            format!("#[typeshare]\n#[serde(tag = \"t\", content = \"c\"{decoy})]\npub enum S{} {{\n    {}\n    Holder {{ {}: u8 }},\n}}\n", i, attr.replace('\n', "\n    "), spelled(c))
+        }
     }
 }
 
@@ -115,7 +125,10 @@ pub fn observe_batch(cases: &[Case]) -> Vec<Result<String, String>> {
                 let sh = e.shared();
                 if let Ok(i) = sh.id.original[1..].parse::<usize>() {
                     if let (Some(v), Some(slot)) = (sh.variants.first(), out.get_mut(i)) {
-                        *slot = Ok(v.shared().id.renamed.clone());
+                        *slot = match v {
+                            typeshare_core::rust_types::RustEnumVariant::AnonymousStruct { fields, .. } => fields.first().map(|f| Ok(f.id.renamed.clone())).unwrap_or(Err("struct variant without field".into())),
+                            _ => Ok(v.shared().id.renamed.clone()),
+                        };
                     }
                 }
             }
@@ -224,14 +237,15 @@ fn shape(ident: &str) -> String {
 pub fn judge(c: &Case, got: &Result<String, String>) -> Option<Violation> {
     let want = oracle(&c.ident, &c.rule, c.pos)?;
     let pos = match c.pos {
-        Pos::Field => "field",
+        // fields of struct variants go through the same conversion as struct fields (same signatures)
+        Pos::Field | Pos::VariantField => "field",
         Pos::Variant => "variant",
     };
     let rule = if RULES.contains(&c.rule.as_str()) { c.rule.as_str() } else { "unknown-rule" };
     match got {
         Ok(g) if *g == want => None,
         Ok(g) => Some(Violation::new(
-            if c.pos == Pos::Field && !conventional_field(&c.ident) && legacy_field(&c.ident, &c.rule).as_deref() == Some(g.as_str()) {
+            if c.pos != Pos::Variant && !conventional_field(&c.ident) && legacy_field(&c.ident, &c.rule).as_deref() == Some(g.as_str()) {
                 format!("{pos}/{rule}/legacy-conversion-of-nonconventional-ident")
             } else {
                 format!("{pos}/{rule}/mismatch")
@@ -269,7 +283,7 @@ impl SubCheck for C16 {
             8 => proptest::sample::select(RULES.to_vec()).prop_map(|s| s.to_string()),
             1 => proptest::sample::select(UNKNOWN_RULES.to_vec()).prop_map(|s| s.to_string()),
         ];
-        (ident, rule, prop_oneof![Just(Pos::Field), Just(Pos::Variant)], 0u8..10)
+        (ident, rule, prop_oneof![Just(Pos::Field), Just(Pos::Variant), Just(Pos::VariantField)], 0u8..10)
             .prop_filter("valid Rust identifier", |(i, _, _, _)| valid_ident(i))
             .prop_map(|(ident, rule, pos, layout)| Case { ident, rule, pos, layout })
             .boxed()
@@ -335,7 +349,7 @@ pub fn run(run: &Run) {
     let mut cases = vec![];
     for id in &idents {
         for r in &rules {
-            for pos in [Pos::Field, Pos::Variant] {
+            for pos in [Pos::Field, Pos::Variant, Pos::VariantField] {
                 cases.push(Case { ident: id.clone(), rule: r.to_string(), pos, layout: (fnv(&[id.as_bytes(), r.as_bytes()]) % 10) as u8 });
             }
         }
@@ -343,7 +357,7 @@ pub fn run(run: &Run) {
     // keywords are identifiers only in raw form
     for kw in crate::gen::RAW_FIELD_NAMES {
         for r in &rules {
-            for pos in [Pos::Field, Pos::Variant] {
+            for pos in [Pos::Field, Pos::Variant, Pos::VariantField] {
                 cases.push(Case { ident: kw.to_string(), rule: r.to_string(), pos, layout: 5 + (fnv(&[kw.as_bytes(), r.as_bytes()]) % 5) as u8 });
             }
         }
